@@ -1245,6 +1245,10 @@ def _finding_key(w, n, got):
         first = bad[0]
         if got == "ERR:OverflowError":
             first = next((i for i in bad if not INT32[0] <= i <= INT32[1]), first)   # the index that overflowed
+        elif got == "CRASH":
+            # an index below -n-1 is accepted (wraps) and the call goes on: if another index is exactly -n-1 it is that
+            # one which hits the `except -1` sentinel and kills the process — the class of the crash, whatever the order
+            first = next((i for i in bad if i == -n - 1), first)
         cls = _index_class(n, first)
         what = "crash" if got == "CRASH" else ("accepted" if got.startswith("ok") else got.replace("ERR:", ""))
         return f"C02/{op}/{cls}/{what}"
